@@ -1,5 +1,6 @@
 import PlumVerif.Spec.C16
 import PlumVerif.Proofs.Setup
+import PlumVerif.Proofs.SetupSpec
 /-
 C16 — device set-up always completes and reports exactly what failed.
 Property theorems only; helper lemmas live in Proofs/Setup.lean.
@@ -139,6 +140,88 @@ theorem answered_data_available (c : Cfg) (hR : 0 < c.R) (es : List Ev)
     (hl : (run c init es).1.phase = .loaded) (hp : (run c init es).1.snap c.product = true)
     (k : Nat) (hk : k < c.n) (ha : (run c init es).1.snap k = true) : avail c (run c init es).1 k = true :=
   data_available c hR es hl k hk (answered_not_listed c hR es hl hp k ha)
+
+/-- the configuration of EcoMAX is well formed -/
+theorem ecomax_wf (mixers : Bool) : wfCfg (ecomaxCfg mixers) := by
+  cases mixers <;> constructor <;> decide
+
+/-- **holds**: the executable rendering of the statement, `C16.spec` — the judge the harness applies
+to what the IMPLEMENTATION did — accepts the observation (`observe`: sensors time, time of the first
+response of every kind, whether the clock was driven past the deadline, load time, error list,
+set-up transmissions per kind, names present) of EVERY history of the machine, for every
+well-formed configuration. -/
+theorem holds (c : Cfg) (wf : wfCfg c) (es : List Ev) : spec c (observe c es) = true := by
+  cases hp : (run c init es).1.phase with
+  | loaded => exact spec_loaded c wf es hp
+  | waiting =>
+    have hld : isLoaded (run c init es).1 = false := by simp [isLoaded, hp]
+    unfold spec
+    have : (observe c es).loadedAt = none := by simp [observe, hld]
+    rw [this]
+    simp only [observe, hld, Bool.false_or, Bool.not_eq_true']
+    cases hq : afterSensors es with
+    | none => rfl
+    | some post =>
+      obtain ⟨pre, he⟩ := afterSensors_split es post hq
+      by_cases hc : c.R ≤ post.count .timer
+      · have := completes c wf.1 (pre ++ [Ev.sensors]) post (by simp) hc
+        rw [List.append_assoc, List.singleton_append, ← he, hp] at this
+        cases this
+      · simp [hc]
+  | running i =>
+    have hld : isLoaded (run c init es).1 = false := by simp [isLoaded, hp]
+    unfold spec
+    have : (observe c es).loadedAt = none := by simp [observe, hld]
+    rw [this]
+    simp only [observe, hld, Bool.false_or, Bool.not_eq_true']
+    cases hq : afterSensors es with
+    | none => rfl
+    | some post =>
+      obtain ⟨pre, he⟩ := afterSensors_split es post hq
+      by_cases hc : c.R ≤ post.count .timer
+      · have := completes c wf.1 (pre ++ [Ev.sensors]) post (by simp) hc
+        rw [List.append_assoc, List.singleton_append, ← he, hp] at this
+        cases this
+      · simp [hc]
+
+/-- `spec` is not vacuous: it rejects an unanswered kind that is not listed, a late 'loaded', a
+failed kind requested only once, and a missing 'loaded' -/
+example : spec (ecomaxCfg true) ⟨0, [some 100, none, some 200, some 200, some 200, some 200, some 200, some 200],
+    true, some 9000, [], [1, 3, 1, 1, 1, 1, 1, 1], [true, false, true, true, true, true, true, true]⟩ = false := by decide
+example : spec (ecomaxCfg true) ⟨0, [none, none, none, none, none, none, none, none],
+    true, some 12000, [0, 1, 2, 3, 4, 5, 6, 7], [3, 3, 3, 3, 3, 3, 3, 3], [false, false, false, false, false, false, false, false]⟩
+    = false := by decide
+example : spec (ecomaxCfg true) ⟨0, [some 100, none, some 200, some 200, some 200, some 200, some 200, some 200],
+    true, some 9000, [1], [1, 1, 1, 1, 1, 1, 1, 1], [true, false, true, true, true, true, true, true]⟩ = false := by decide
+example : spec (ecomaxCfg true) ⟨0, [none, none, none, none, none, none, none, none],
+    true, none, [], [3, 3, 3, 3, 3, 3, 3, 3], [false, false, false, false, false, false, false, false]⟩ = false := by decide
+/-- … and accepts the correct observation of that run -/
+example : spec (ecomaxCfg true) ⟨0, [some 100, none, some 200, some 200, some 200, some 200, some 200, some 200],
+    true, some 9000, [1], [1, 3, 1, 1, 1, 1, 1, 1], [true, false, true, true, true, true, true, true]⟩ = true := by decide
+
+/-- **versions_before_setup_irrelevant**: frame-versions tables handled before (or during, or
+after) set-up make the versions handler send its own requests, but change nothing about set-up:
+for every history, the phase, sensors time, load time, error list, handled responses and the
+per-kind set-up transmission counts — and all set-up outputs — are those of the same history
+with every announcement removed. -/
+theorem versions_before_setup_irrelevant (c : Cfg) (es : List Ev) :
+    let s := (run c init es).1
+    let s' := (run c init (es.filter (fun e => !e.isVersions))).1
+    s.phase = s'.phase ∧ s.t0 = s'.t0 ∧ s.loadedAt = s'.loadedAt ∧ s.errors = s'.errors ∧ s.tx = s'.tx ∧
+    s.arrived = s'.arrived ∧ s.snap = s'.snap ∧
+    (run c init es).2.filter Out.isSetup =
+      (run c init (es.filter (fun e => !e.isVersions))).2.filter Out.isSetup := by
+  obtain ⟨v, x, h1, h2⟩ := run_drop_versions c init init.versioned init.vtx es
+  have hi : withV init init.versioned init.vtx = init := rfl
+  rw [hi] at h1 h2
+  simp only [h1]
+  exact ⟨rfl, rfl, rfl, rfl, rfl, rfl, rfl, h2⟩
+
+/-- a table naming five kinds arrives before the sensor data: five extra requests by the versions
+handler, then set-up exactly as without it (three rounds of eight, all eight listed) -/
+example : (run (ecomaxCfg true) init [.versions [0, 2, 3, 4, 5], .sensors, .timer, .timer, .timer]).2 =
+    [.vtx 0 0, .vtx 2 0, .vtx 3 0, .vtx 4 0, .vtx 5 0] ++
+    (run (ecomaxCfg true) init [.sensors, .timer, .timer, .timer]).2 := by decide
 
 /-! ### non-vacuity (configuration of EcoMAX, mixers present) -/
 
